@@ -176,7 +176,7 @@ int main(int argc, char** argv)
 
          if(!(WIFEXITED(st) && WEXITSTATUS(st) == 0))
             failures.push_back("{\"id\":\"readvalue-long-token\",\"input\":\"" + std::to_string(n) + " digits\",\"what\":\"" +
-                               std::string(WIFEXITED(st) && WEXITSTATUS(st) == 3 ? "contract violated" : "sanitizer abort / crash (scratch buffer tmp[SOPLEX_LPF_MAX_LINE_LEN] overflown)") + "\"}");
+                               std::string(WIFEXITED(st) && WEXITSTATUS(st) == 3 ? "contract violated" : "sanitizer abort / crash (scratch buffer overflown)") + "\"}");
       }
    }
 
